@@ -45,7 +45,7 @@ int main() {
 		}
 		// correspondence only (the oracle reads the first ntol results): loose tolerances, so that the FIRST acceptance tests of both
 		// schemes decide the outcome - with the property's tolerances they never pass, and a change to them would stay invisible
-		for (double tol : {1e-1, 1e-2, 1e-3, 1e-5}) {
+		for (double tol : {1e3, 1e2, 1e1, 1.0, 1e-1, 1e-2, 1e-3, 1e-4, 1e-5, 1e-6, 1e-7}) {
 			auto r = q.integrate(fn, f.data(), tol, start, end);
 			o << "> int " << bits(tol) << " " << start << " " << end << "\n";
 			o << "< I " << bits(r.first) << " " << (r.second ? 1 : 0) << "\n";
